@@ -73,6 +73,11 @@ pub trait Adapter {
     fn finale(&self, _cfg: &Value) -> Vec<Value> {
         vec![]
     }
+    /// if Some, the run is this list of environment actions (sequential histories) instead of
+    /// the generic random environment
+    fn script(&mut self, _cfg: &Value, _size: Size, _rng: &mut Rng) -> Option<Vec<Value>> {
+        None
+    }
     /// called when a run ends (drop services)
     fn teardown(&mut self) {}
 }
@@ -266,8 +271,12 @@ pub async fn run_random(ad: &mut dyn Adapter, seed: u64, runs: usize, size: Size
         let cfg = ad.gen_cfg(&mut rng, size);
         sim.reset(ad.name(), &cfg, seed, run);
         ad.build(&cfg, &mut sim);
-        let p = ad.params(&cfg, size, &mut rng);
-        drive_random(&mut sim, ad, &mut rng, &p).await;
+        if let Some(sc) = ad.script(&cfg, size, &mut rng) {
+            st.skipped += drive_schedule(&mut sim, ad, &sc, &mut rng).await;
+        } else {
+            let p = ad.params(&cfg, size, &mut rng);
+            drive_random(&mut sim, ad, &mut rng, &p).await;
+        }
         let fin = ad.finale(&cfg);
         if !fin.is_empty() {
             st.skipped += drive_schedule(&mut sim, ad, &fin, &mut rng).await;
